@@ -21,6 +21,11 @@ def make_wl(rng, k):
     if mode == "file_name":
         spec["n_bams"] = rng.choice([2, 3])
     opts["annotated"] = True
+    strats = ["unique_only", "with_ambiguous", "unique_splicing_consistent", "unique_inconsistent", "all"]
+    opts["transcript_quant"] = strats[i % 5]
+    opts["gene_quant"] = strats[(i // 5 + 2 * i + 1) % 5]
+    spec["truncate"] = 1
+    spec["novel"] = rng.choice([1, 2, 3])
     return spec, opts
 
 
